@@ -17,6 +17,8 @@ C07 — line-protocol driver of the models (core only).  One op per line, one an
   str <ty> <clen> <s1,s2,…|_>    → ok <hex bytes>              (EncodeStringBlock with compressor `ty`;
                                    strings in hex, `-` = empty string, `_` = no strings)
   strdec <hex bytes>             → strs <data> <offsets> | err (DecodeStringBlock, uncompressed frames)
+  file <description>             → ok                          (whole-file round trip through a real shard: no
+                                   model; the harness's spec diff decides, any failure shows as a diff)
   booldec <hex bytes>            → bits <0/1 string | -> | err (Boolean.Decoding)
 
 `zlen` is the observed length of the zstd (snappy, …) payload for the block's raw bytes: the
@@ -281,6 +283,7 @@ def step (line : String) : String :=
       | some (data, offs) =>
         "strs " ++ (if data.isEmpty then "-" else bytesHex data) ++ " "
           ++ (if offs.isEmpty then "-" else ",".intercalate (offs.map toString))
+  | "file" => "ok"
   | "bool" =>
     if rest == "-" then showBytes (encodeBool [])
     else if rest.any (fun c => c ≠ '0' ∧ c ≠ '1') then "bad-op"
